@@ -316,13 +316,19 @@ impl GlobWalker {
                 let entry = filtrate.as_ref();
                 let (_, path) = self::root_relative_paths(entry.path(), entry.depth(), pivot);
                 let depth = entry.depth().saturating_sub(1);
+                // Components other than the root (and any prefix) have a component program,
+                // including `.` and `..` in the invariant prefix of the glob. The root is not a
+                // component of the glob and must not be counted when skipping components that
+                // have already been examined.
                 for (position, candidate) in path
                     .components()
-                    .skip(depth)
                     .filter_map(|component| match component {
                         Component::Normal(component) => Some(CandidatePath::from(component)),
+                        Component::CurDir => Some(CandidatePath::from(".")),
+                        Component::ParentDir => Some(CandidatePath::from("..")),
                         _ => None,
                     })
+                    .skip(depth)
                     .zip_longest(self.program.components.iter().skip(depth))
                     .with_position()
                 {
